@@ -94,11 +94,25 @@ class Run:
         if n < minimum:
             self.note("rule %s matched %d instances (pinned tree: %d)" % (rid, n, minimum))
 
-    def need_fn(self, spath, target=None):
+    def need_fn(self, spath, target=None, raw=False):
+        """the anchor function - by default as a *view*: helpers that did not exist on the pinned tree are inlined into it, so that
+        an extract-function refactoring does not hide statements from the rule (on the pinned tree the view is the function itself)"""
         f = self.prog.fn(spath, target)
         if f is None:
             raise AnchorMissing("anchor function not found: %s" % spath)
-        return f
+        if raw:
+            return f
+        from . import pathrules as PR
+        return PR.view(self.prog, f)
+
+    def fn_or_host(self, spath, host, target=None):
+        """a private helper the rule knows by name; when it is gone (renamed / moved / inlined) the rule analyses its former host
+        instead - the view of the host contains whatever new function took the helper's place"""
+        f = self.prog.fn(spath, target)
+        if f is not None:
+            from . import pathrules as PR
+            return PR.view(self.prog, f)
+        return self.need_fn(host, target)
 
 
 def load_known():
